@@ -21,14 +21,20 @@ class C02(Spec):
                   "unrelated pending updates/commits/rollbacks/sets; all roots must equal the reference (predicate) and the "
                   "byte-exact roots of the Lean model (diff). "
                   "Refuted part: 'the memTree cache is transparent' is false of the code (cache_transparent_full_false on the "
-                  "abstract cache protocol; replayed on the real code by the hunt run: KNOWN-FINDING "
-                  "C02|Store.MemSet|panic-after-{rolled-back,left-pending}-update-of-same-content); "
+                  "abstract cache protocol; replayed on the real code by the hunt run, documented witnesses first: KNOWN-FINDING "
+                  "C02|{Store.MemSet,Store.Set,read-after-restart}|panic-after-{rolled-back,left-pending}-"
+                  "{update-of-same-content,no-op-update} — the last victim means a committed root is unreadable after a process "
+                  "restart: dangling child keys were persisted); "
                   "cache_transparent_partial holds when memTree only holds committed records.")
     level_note = ("The byte-level model treats memTree/tkCloseCache as a transparent cache (no memTree state); the memTree "
                   "protocol is modelled separately on abstract keys (C02.Mem). The cross-configuration theorem is about the "
                   "in-memory evolution (sets + Hash); save/load between blocks is executed by the driver and compared with Go, "
                   "not proved. memTree is a process global keyed by node hash: the harness resets it for every new database "
-                  "(a new database stands for a new process); within a store it carries all history. farm64 collisions ignored.")
+                  "(a new database stands for a new process); within a store it carries all history. In the differential run a noise "
+                  "MemSet whose root is already committed (the trigger shape) is committed at once instead of being left pending, so "
+                  "that stream stays inside the modelled behaviour; the hunt run exercises exactly that shape, predicate only "
+                  "(control store vs test store, then a cold restart and full reads). Values are not read under MVCC (they depend "
+                  "on what memTree holds). farm64 collisions ignored.")
     assumptions = (
         "hash function with 32-byte outputs (SHA-256); no injectivity assumed",
         "farm.Hash64 collision-free on the node keys of a run (memTree keys)",
